@@ -1,4 +1,6 @@
 """C03 — IPMB frames carry valid checksums; the reply filter passes only intact matches."""
+import collections
+
 from ..lib import lean, rng as rnglib
 from ..translate import ipmb as tr
 
@@ -12,8 +14,14 @@ RULE = ('transmit side: boundary + seeded request headers (6-bit netfn, 2-bit LU
         'one field of the figure changed (netfn: request\'s own / other odd / other even, cmd, each LUN, seq, each '
         'address), a bad header checksum, a bad payload checksum, frames of 0..7 bytes, each under all 32 flag '
         'settings; every single-byte corruption (255 x len) of sampled accepted replies.  Real rx_filter vs Lean model '
-        '(tie) and vs Spec.Wire.isReplyTo (property).  Distinct by (op, header, flags, bytes); non-trivial = '
-        'non-empty payload / frame of >= 6 bytes.')
+        '(tie) and vs Spec.Wire.isReplyTo (property).  Histories: the filter has no memory in the property, so every '
+        'frame is judged on its own although all frames go through rx_filter in ONE process; each reported case '
+        'carries the frames that went through the filter before it (replayed in order).  Directed sequences through '
+        'one long-lived request-header object: intact match / one-field mismatches / checksum faults, each followed '
+        'by runt frames of 0..5 bytes (prefixes of the reply and runts whose byte sums are zero), then the intact '
+        'match again, under default / all / random flags.  Transmit side: every header also through one long-lived '
+        'IpmbHeaderReq object whose fields are re-assigned (same frame as from a fresh object demanded).  '
+        'Distinct by (op, header, flags, bytes); non-trivial = non-empty payload / frame of >= 6 bytes.')
 ASSUMPTIONS = [
     'the arithmetic of checksum / IpmbHeaderReq.encode / IpmbHeaderRsp.decode and the checks list of rx_filter are '
     'regenerated from the AST of the working tree every run (Gen/IpmbFilter.lean); the control flow around them '
@@ -66,12 +74,20 @@ def real_encode(vals, data):
     return 'ok ' + lean.hexs(r[1]) if r[0] == 'ok' else r[0]
 
 
-def real_filter(vals, flags, frame):
+# the rx_filter calls made so far in this process (most recent last): a reported case carries them,
+# because the replay runs in a new process and the property gives the filter no memory
+HISTORY = 8
+_recent = collections.deque(maxlen=HISTORY)
+
+
+def real_filter(vals, flags, frame, header=None):
     from pyipmi.interfaces.ipmb import rx_filter
     kw = dict((k, c == '1') for k, c in zip(FLAGS, flags))
     if flags == DEFAULT_FLAGS:
         kw = {}          # exercise the keyword defaults themselves
-    r = _outcome(lambda: rx_filter(_mk_header(vals), frame, **kw))
+    _recent.append((vals, flags, frame))
+    h = header if header is not None else _mk_header(vals)
+    r = _outcome(lambda: rx_filter(h, frame, **kw))
     if r[0] != 'ok':
         return r[0]
     if r[1] is True:
@@ -215,14 +231,33 @@ def judge_encode(ctx, drv, vals, data, m_hdr=None, m_enc=None, spec_parse=None, 
     return not bad
 
 
-def judge_filter(ctx, drv, req, flags, frame, kind, model=None, spec=None):
+def _before(recent):
+    return [[list(r), fl, lean.hexs(f)] for r, fl, f in recent]
+
+
+def judge_filter(ctx, drv, req, flags, frame, kind, model=None, spec=None, header=None, before=None):
+    """`header`: a long-lived request-header object to use (None: a fresh one); `before`: the calls that
+    precede this one in its sequence (None: the last HISTORY calls of this process)"""
+    recent = tuple(_recent) if before is None else before
+    real = real_filter(req, flags, frame, header)
     case = {'op': 'filter', 'req': list(req), 'flags': flags, 'frame': lean.hexs(frame), 'kind': kind}
-    real = real_filter(req, flags, frame)
+    if real != 'ok 0' or spec == '1':
+        # only a case that may be reported carries its history
+        case['before'] = _before(recent)
+        case['same_header'] = header is not None
     if model is not None and model != real:
         if not (model.startswith('py:') and real.startswith('py:')):
+            case.setdefault('before', _before(recent))
+            case.setdefault('same_header', header is not None)
             ctx.disagree('rx_filter', case, model, real)
     if spec is None:
         spec = drv.ask('isreply %s %s %s' % (hs(req), flags, lean.hexs(frame)))
+        case.setdefault('before', _before(recent))
+        case.setdefault('same_header', header is not None)
+    return _judge_filter_outcome(ctx, drv, case, real, frame, kind, spec)
+
+
+def _judge_filter_outcome(ctx, drv, case, real, frame, kind, spec):
     if real == 'ok 1' and spec != '1':
         ctx.violate('C03:rx_filter:accepts:%s' % kind,
                     'rx_filter accepts a frame that is not an intact matching reply (%s)' % kind, case,
@@ -353,6 +388,7 @@ def _run_filter(ctx, drv, rng, n_req, n_corrupt_frames, all_flags_for):
         models = drv.ask_many(['flt %s %s %s' % (hs(req), fl, lean.hexs(f)) for f in muts])
         for f, m in zip(muts, models):
             ctx.case(('corrupt', req, fl, f))
+            recent = tuple(_recent)
             real = real_filter(req, fl, f)
             if m != real:
                 ctx.disagree('rx_filter', {'op': 'filter', 'req': list(req), 'flags': fl, 'frame': lean.hexs(f),
@@ -362,7 +398,8 @@ def _run_filter(ctx, drv, rng, n_req, n_corrupt_frames, all_flags_for):
                 ctx.violate('C03:rx_filter:accepts:corrupted-%s' % ('header' if pos < 3 else 'payload'),
                             'rx_filter does not reject a reply with one corrupted byte (offset %d)' % pos,
                             {'op': 'filter', 'req': list(req), 'flags': fl, 'frame': lean.hexs(f), 'kind': 'corruption',
-                             'intact': lean.hexs(frame)}, expected='False', observed=real)
+                             'intact': lean.hexs(frame), 'before': _before(recent), 'same_header': False},
+                            expected='False', observed=real)
         ctx.count('filter:single-byte-corruption', len(muts))
         ctx.count('corruption-frames')
         n_corr += 1
@@ -385,6 +422,105 @@ def _run_filter(ctx, drv, rng, n_req, n_corrupt_frames, all_flags_for):
     ctx.count('filter:two-cancelling-corruptions', len(stim2))
 
 
+def zero_sum_runts(rng, frame):
+    """frames of 0..5 bytes: prefixes of `frame`, and runts whose header part / rest sum to zero modulo 256
+    (no complete header, no command or sequence byte: never the reply to anything)"""
+    out = [('short-%d' % n, bytes(frame[:n])) for n in range(6)]
+    a, b = rng.randrange(256), rng.randrange(256)
+    x = rng.randrange(1, 256)
+    three = bytes([a, b, (-(a + b)) % 256])
+    out += [('short-1', b'\x00'), ('short-2', bytes([x, (-x) % 256])), ('short-3', b'\x00\x00\x00'),
+            ('short-3', three), ('short-4', three + b'\x00'), ('short-4', bytes(frame[:3]) + b'\x00'),
+            ('short-5', three + bytes([x, (-x) % 256])), ('short-5', bytes(frame[:3]) + bytes([x, (-x) % 256])),
+            ('short-5', b'\x00' * 5)]
+    return out
+
+
+def _run_filter_histories(ctx, drv, rng, n_req):
+    """sequences of frames through rx_filter with ONE request-header object per sequence (the outstanding
+    request of a transport); every frame is judged on its own by the specification"""
+    reqs = gen_headers(rng, n_req, request=True)
+    plans = []      # (req, flags, [(kind, mkreply-line or None, post)])
+    mk_lines = []
+    for i, req in enumerate(reqs):
+        body = bytes([rng.choice((0, 0xc1))]) + gen_payload(rng, rng.choice((0, 1, 3, rng.randrange(0, 20))))
+        variants = reply_variants(rng, req)
+        rng.shuffle(variants)
+        variants = [v for v in variants if v[0] == 'match'] + [v for v in variants if v[0] != 'match'][:3]
+        rng.shuffle(variants)
+        lines = []
+        for kind, hdr, netfn_out in variants:
+            h = list(hdr)
+            if netfn_out is not None:
+                if netfn_out == 0:
+                    continue
+                h[2] = netfn_out - 1
+            lines.append((kind, 'mkreply %s %s' % (hs(h), lean.hexs(body))))
+        lines.append(('match', 'mkreply %s %s' % (hs(req), lean.hexs(body))))
+        flags = (DEFAULT_FLAGS, '11111', '00000', rng.choice(ALL_FLAGS))[i % 4]
+        plans.append((req, flags, lines))
+        mk_lines += [l for _, l in lines]
+    frames = iter(drv.ask_many(mk_lines))
+    seqs = []
+    for req, flags, lines in plans:
+        seq = []
+        for kind, _ in lines:
+            frame = lean.unhex(next(frames))
+            seq.append((kind, frame))
+            r = rng.random()
+            if kind == 'match' and r < 0.5:
+                for pos, knd in ((2, 'hdr-checksum'), (len(frame) - 1, 'payload-checksum'),
+                                 (rng.randrange(6, len(frame)), 'payload-checksum')):
+                    bad = bytearray(frame)
+                    bad[pos] = (bad[pos] + rng.randrange(1, 256)) % 256
+                    seq.append((knd, bytes(bad)))
+                    seq += rng.sample(zero_sum_runts(rng, frame), 4)
+            runts = zero_sum_runts(rng, frame)
+            seq += runts if kind == 'match' else rng.sample(runts, 5)
+        seqs.append((req, flags, seq))
+    flat = [(req, flags, f) for req, flags, seq in seqs for _, f in seq]
+    models = iter(drv.ask_many(['flt %s %s %s' % (hs(r), fl, lean.hexs(f)) for r, fl, f in flat]))
+    specs = iter(drv.ask_many(['isreply %s %s %s' % (hs(r), fl, lean.hexs(f)) for r, fl, f in flat]))
+    for req, flags, seq in seqs:
+        header = _mk_header(req)
+        before = []
+        for kind, frame in seq:
+            m, sp = next(models), next(specs)
+            ctx.case(('flt-seq', req, flags, tuple(b[2] for b in before), frame), nontrivial=len(before) > 0)
+            ctx.count('filter-sequence:' + (kind if not kind.startswith('short') else 'runt-after-' + (
+                before[-1][3] if before and not before[-1][3].startswith('short') else 'runt' if before else 'nothing')))
+            judge_filter(ctx, drv, req, flags, frame, kind, m, sp, header=header,
+                         before=tuple((r, fl, f) for r, fl, f, _ in before))
+            before.append((req, flags, frame, kind))
+        ctx.count('filter-sequences')
+    ctx.sample({'op': 'filter-sequence', 'req': list(seqs[0][0]), 'flags': seqs[0][1],
+                'frames': [lean.hexs(f) for _, f in seqs[0][2][:12]]})
+
+
+def _run_encode_histories(ctx, rng, hdrs):
+    """transmit side: one long-lived IpmbHeaderReq object, fields re-assigned before every frame; the frame
+    must be the one a fresh header object gives (which the main stream judges by the specification)"""
+    from pyipmi.interfaces.ipmb import IpmbHeaderReq, encode_ipmb_msg
+    long_h, seq = IpmbHeaderReq(), []
+    for n, h in enumerate(hdrs):
+        if n % 10 == 0:
+            long_h, seq = IpmbHeaderReq(), []
+        d = gen_payload(rng, rng.choice((0, 1, 5, rng.randrange(0, 30))))
+        seq.append([list(h), lean.hexs(d)])
+        for k, v in zip(FIELDS, h):
+            setattr(long_h, k, v)
+        a = _outcome(lambda: bytes(bytearray(long_h.encode())))
+        b = _outcome(lambda: bytes(bytearray(encode_ipmb_msg(long_h, d))))
+        got = (a[0] if a[0] != 'ok' else 'ok ' + lean.hexs(a[1]), b[0] if b[0] != 'ok' else 'ok ' + lean.hexs(b[1]))
+        want = (real_header(h), real_encode(h, d))
+        ctx.case(('enc-seq', tuple(map(repr, seq))), nontrivial=len(seq) > 1)
+        ctx.count('encode:reused-header-object')
+        if got != want:
+            ctx.violate('C03:encode:reused-header-object',
+                        'a header object whose fields were re-assigned does not encode like a fresh one',
+                        {'op': 'encode-history', 'seq': list(seq)}, expected=list(want), observed=list(got))
+
+
 def run(ctx):
     drv = ctx.driver('drv_c03')
     if drv.ask('ping') != 'pong':
@@ -393,6 +529,8 @@ def run(ctx):
     quick = ctx.tier == 'quick'
     lens = [0, 1, 2, 7, 16, 63, 64] + ([] if quick else [255, 1024])
     _run_transmit(ctx, drv, rng, 120 if quick else 1500, lens)
+    _run_encode_histories(ctx, ctx.rng('c03-encode-history'), gen_headers(ctx.rng('c03-eh'), 200 if quick else 3000))
+    _run_filter_histories(ctx, drv, ctx.rng('c03-filter-history'), 60 if quick else 1200)
     _run_filter(ctx, drv, rng, n_req=40 if quick else 400, n_corrupt_frames=24 if quick else 400,
                 all_flags_for=12 if quick else 60)
 
@@ -408,6 +546,8 @@ def search(ctx):
         return
     rng = ctx.rng('c03-search')
     _run_transmit(ctx, drv, rng, 400, [0, 1, 2, 3, 7, 8, 16, 63, 64, 255])
+    if not ctx.violations:
+        _run_filter_histories(ctx, drv, rng, 200)
     if not ctx.violations:
         _run_filter(ctx, drv, rng, n_req=120, n_corrupt_frames=40, all_flags_for=120)
 
@@ -433,16 +573,42 @@ def replay(ctx, v):
             b = _outcome(lambda: bytes(bytearray(encode_ipmb_msg(_mk_header(vals), b''))))
             return a != b
         judge_encode(c2, drv, vals, data)
+    elif case['op'] == 'encode-history':
+        from pyipmi.interfaces.ipmb import IpmbHeaderReq, encode_ipmb_msg
+        long_h, bad = IpmbHeaderReq(), False
+        print('one IpmbHeaderReq object, fields re-assigned before each frame:')
+        for h, dx in case['seq']:
+            d = lean.unhex(dx)
+            for k, x in zip(FIELDS, h):
+                setattr(long_h, k, x)
+            b = _outcome(lambda: bytes(bytearray(encode_ipmb_msg(long_h, d))))
+            a = _outcome(lambda: bytes(bytearray(long_h.encode())))
+            got = (a[0] if a[0] != 'ok' else 'ok ' + lean.hexs(a[1]), b[0] if b[0] != 'ok' else 'ok ' + lean.hexs(b[1]))
+            want = (real_header(tuple(h)), real_encode(tuple(h), d))
+            print('  %s %s: used object %s, fresh object %s' % (dict(zip(FIELDS, h)), dx, got[1], want[1]))
+            bad = got != want
+        return bad
     elif case['op'] == 'filter':
         req, fl, frame = tuple(case['req']), case['flags'], lean.unhex(case['frame'])
+        header = _mk_header(req) if case.get('same_header') else None
+        before = case.get('before') or []
+        if before:
+            print('frames that went through rx_filter before, in this order%s:' % (
+                ' (same request-header object)' if header is not None else ''))
+        for r, f, fx in before:
+            out = real_filter(tuple(r), f, lean.unhex(fx), header if tuple(r) == req else None)
+            print('  rx_filter(%s, %s, flags %s) -> %s' % (list(r), fx, f, out))
         print('rx_filter(%s, %s, flags %s)' % (dict(zip(FIELDS, req)), case['frame'], dict(zip(FLAGS, fl))))
-        print('  code : %s' % real_filter(req, fl, frame))
+        real = real_filter(req, fl, frame, header)
+        print('  code : %s' % real)
         print('  spec : isReplyTo = %s' % drv.ask('isreply %s %s %s' % (hs(req), fl, lean.hexs(frame))))
         if case.get('kind') == 'corruption':
-            real = real_filter(req, fl, frame)
             print('  (one byte of the accepted reply %s was altered)' % case.get('intact'))
             return real != 'ok 0'
-        judge_filter(c2, drv, req, fl, frame, case.get('kind', ''))
+        # judge the observation just made (a second call would have a different history)
+        c2.violations = []
+        _judge_filter_outcome(c2, drv, case, real, frame, case.get('kind', ''),
+                              drv.ask('isreply %s %s %s' % (hs(req), fl, lean.hexs(frame))))
     for x in c2.violations:
         print('  ' + x['what'])
     return bool(c2.violations)
